@@ -58,4 +58,16 @@ def transitionDense (xs : List (Option Nat)) (n τ : Nat) (noncorr : Bool) : Lis
   let M := countMat (windows xs τ (stepOf τ noncorr))
   (List.range n).map fun i => (List.range n).map fun j => tEntry M n i j
 
+/-- Positions at which the symmetrised count matrix can be non-zero: both orientations of every counted window
+(with repetitions; the harness sorts and de-duplicates). -/
+def support (ws : List (Nat × Nat)) : List (Nat × Nat) :=
+  ws.flatMap fun w => [(w.1, w.2), (w.2, w.1)]
+
+/-- Sparse output for the driver (large cell counts): the entries at the support positions inside the `n × n`
+matrix, as `(i, j, T_ij)`; every other entry of the matrix is zero (`Molgri.C12.sparse_complete`). -/
+def transitionSparse (xs : List (Option Nat)) (n τ : Nat) (noncorr : Bool) : List (Nat × Nat × Rat) :=
+  let ws := windows xs τ (stepOf τ noncorr)
+  let M := countMat ws
+  ((support ws).filter fun p => decide (p.1 < n) && decide (p.2 < n)).map fun p => (p.1, p.2, tEntry M n p.1 p.2)
+
 end Molgri.Msm
